@@ -127,8 +127,9 @@ impl EfgWriter {
 
     /// returns the model subtree (names as the file gives them)
     fn node(&mut self, node: &Tree, carried: f64, depth: usize) -> Tree {
-        // an interior increment (delta to player one, -delta to player two) on every other level
-        let delta: f64 = if self.style.interior && depth % 2 == 1 { if depth % 4 == 1 { 1.0 } else { -0.5 } } else { 0.0 };
+        // an interior increment (delta to player one, -delta to player two) on every interior level,
+        // the root included (so that outcomes also sit on nodes below nodes that carry one)
+        let delta: f64 = if self.style.interior { [1.0, -0.5, 0.25][depth % 3] } else { 0.0 };
         // (this parser's grammar gives outcomes of chance nodes no name)
         let interior = |this: &mut EfgWriter, named: bool| -> String {
             if delta == 0.0 {
